@@ -684,7 +684,7 @@ static inline bool LPFhasKeyword(char*& pos, const char* keyword)
          i++;
 
          // Here we assumed that we have a ']' for the '['.
-         while((tolower(pos[k]) == keyword[i]) && (pos[k] != '\0'))
+         while((keyword[i] != ']') && (tolower(pos[k]) == keyword[i]) && (pos[k] != '\0'))
          {
             k++;
             i++;
